@@ -175,6 +175,12 @@ def main(argv):
                 ob = {"name": f"kani/{h}", "backend": "kani+cbmc+cadical", "ok": res["status"] == "ok", "time_s": res["time_s"],
                       "cbmc_checks": res.get("checks"), "covers": f"{res.get('cover_satisfied', 0)}/{res.get('cover_total', 0)}",
                       "bounded": info.get("bounded")}
+                if res["status"] == "fail" and res["failed_checks"]:
+                    kf = [k for k in known if k["obligation"] == f"kani/{h}" and all(re.search(k["match"], fc) for fc in res["failed_checks"])]
+                    if kf:
+                        # a listed finding: reported, not counted as an obligation of this run, never a violation
+                        known_hits.extend(kf)
+                        continue
                 obligations.append(ob)
                 if res["status"] == "ok":
                     if res.get("cover_total", 0) and res.get("cover_satisfied", 0) != res.get("cover_total", 0):
@@ -190,12 +196,6 @@ def main(argv):
                     continue
                 # ---- failed harness: known finding?  else counterexample -> native replay on the real code
                 failed_txt = " | ".join(res["failed_checks"])
-                kf = [k for k in known if k["obligation"] == f"kani/{h}" and all(re.search(k["match"], fc) for fc in res["failed_checks"])]
-                if kf and res["failed_checks"]:
-                    for k in kf:
-                        known_hits.append(k)
-                    ob["known_finding"] = True
-                    continue
                 try:
                     fails, pout = kx.concrete_playback(scratch, h)
                 except subprocess.TimeoutExpired:
